@@ -162,6 +162,17 @@ def rio_reproject(
     return dst
 
 
+def _gdal_ignores(A: Affine) -> bool:
+    """
+    GDAL takes geotransform ``(0, 1, 0, 0, 0, +-1)`` to mean "not georeferenced", and rasterio
+    replaces any transform within 1e-5 of those two by a *y-up* identity: a north-up grid with
+    1 unit pixels whose corner is at ``(0, 0)`` would be warped mirrored about ``y=0``.
+    """
+    return A.almost_equals(Affine.identity()) or A.almost_equals(
+        Affine(1, 0, 0, 0, -1, 0)
+    )
+
+
 def _rio_reproject(
     src: np.ndarray,
     dst: np.ndarray,
@@ -212,19 +223,38 @@ def _rio_reproject(
     src, src_is_bool = _alias_or_convert(src)
     _dst, _ = _alias_or_convert(dst)
 
+    # a grid GDAL would ignore is presented with a one pixel margin instead: same pixel
+    # grid, usable geotransform; the margin of the source is nodata, and when there is no
+    # nodata value to mark it with the source is presented bottom row first instead
+    dst_transform = d_gbox.transform
+    _out = _dst
+    if _gdal_ignores(dst_transform):
+        dst_transform = d_gbox.pad(1).transform
+        _out = np.empty(tuple(n + 2 for n in _dst.shape), dtype=_dst.dtype)
+    if src_transform is not None and _gdal_ignores(src_transform):
+        assert isinstance(s_gbox, GeoBox)
+        if src_nodata is not None:
+            src_transform = s_gbox.pad(1).transform
+            src = np.pad(src, 1, constant_values=src_nodata)
+        else:
+            src_transform = s_gbox.flipy().transform
+            src = np.ascontiguousarray(src[::-1])
+
     rasterio.warp.reproject(
         src,
-        _dst,
+        _out,
         src_transform=src_transform,
         gcps=gcps,
         src_crs=str(s_gbox.crs),
-        dst_transform=d_gbox.transform,
+        dst_transform=dst_transform,
         dst_crs=str(d_gbox.crs),
         resampling=resampling,
         src_nodata=src_nodata,
         dst_nodata=dst_nodata,
         **kwargs,
     )
+    if _out is not _dst:
+        np.copyto(_dst, _out[1:-1, 1:-1])
 
     if dst is not _dst:
         # int8 workaround copy pixels back to int8
